@@ -285,6 +285,17 @@ func ExtremesFamily() []Named {
 		&Def{Kind: "message", Name: "OuterMsg", Fields: []Field{mf(1, "s", Simple("HoldM")), mf(2, "tail", Simple("int32"))}})
 	out = append(out, Named{"extremes/structs-holding-length-prefixed-records", s})
 
+	// a struct that holds a message with a deprecated field and is itself nested in other records:
+	// the trigger population of the known finding "struct skipped by its recomputed Size()" (C03/C04)
+	s = &Schema{}
+	s.Defs = append(s.Defs,
+		&Def{Kind: "message", Name: "DepInner", Fields: []Field{{Name: "gone", Type: Simple("float64"), Index: 1, Deprecated: true, DepMsg: "gone"}, mf(2, "keep", Simple("int32"))}},
+		&Def{Kind: "struct", Name: "DepWrap", Fields: []Field{f("m", Simple("DepInner")), f("w", Simple("int32"))}},
+		&Def{Kind: "message", Name: "DepHoldM", Fields: []Field{mf(1, "w", Simple("DepWrap")), {Name: "old", Type: Simple("int16"), Index: 2, Deprecated: true, DepMsg: "old"}, mf(3, "tail", Simple("int32"))}},
+		&Def{Kind: "struct", Name: "DepHoldS", Fields: []Field{f("w", Simple("DepWrap")), f("tail", Simple("int32"))}},
+		&Def{Kind: "struct", Name: "DepHoldArr", Fields: []Field{f("ws", ArrayOf(Simple("DepWrap"))), f("tail", Simple("int32"))}})
+	out = append(out, Named{"extremes/nested-struct-holding-deprecated", s})
+
 	// containers that C06 fills with 20 000 elements
 	s = &Schema{}
 	s.Defs = append(s.Defs,
